@@ -1662,7 +1662,9 @@ class PyCdlib:
             self.enhanced_vd.root_directory_record().set_data_location(loc, loc)
 
         if self.udf_anchors:
-            self.udf_anchors[-1].set_extent_location(current_extent,
+            # The last anchor has to live in the last sector of the volume,
+            # even if the volume has unused sectors before it.
+            self.udf_anchors[-1].set_extent_location(max(current_extent, self.pvd.space_size - 1),
                                                      self.udf_main_descs.pvds[0].extent_location(),
                                                      self.udf_reserve_descs.pvds[0].extent_location())
 
